@@ -38,7 +38,9 @@ def setup(i):
     sh(f"sed -i 's#\"/repo/#\"{base}/repo/#g' {base}/verif/harness/vcheck/Cargo.toml {base}/verif/harness/vcheck_chrono/Cargo.toml")
     # seed the build directory with the dependencies already built for /verif
     os.makedirs(f"{base}/verif/target", exist_ok=True)
-    sh(f"rsync -a --exclude 'fuzz-*' --exclude '*.log' {ROOT}/target/ {base}/verif/target/")
+    # only the main profile is copied (the second one is built on demand, for changes the main run misses): each copy
+    # then takes ~20 GB instead of ~35 GB
+    sh(f"rsync -a --exclude 'fuzz-*' --exclude 'release-plain' --exclude 'x86_64-*' --exclude '*.log' {ROOT}/target/ {base}/verif/target/")
     return base
 
 
